@@ -108,6 +108,19 @@ def enumerate_cases(tier):
                     if n == 2:
                         recs += [['matprod', ['matrix', A], ['matrix', B], True],
                                  ['matprod', ['matrix', A, B], ['matrix', B, A], False]]
+        # list form of convert (there and back) on every flag pattern; a later product shows a wrong mark
+        for n in (2, 3):
+            for fa in itertools.product([0, 1, 2], repeat=n):
+                A = mk(fa, 1)
+                recs += [['conv_l', A, l + 8, f + 4], ['prod', ['conv_l', A, l + 8, f + 4]],
+                         ['inprod_self', ['conv_l', A, l + 8, f + 4]]]
+        # mpc.prod keeps one flag per partial product of its pairwise tree: every whole/non-whole pattern of
+        # 4..7 factors (odd lengths pair values and flags differently)
+        wholes = [2, -1, 1, 1, -1, 1, 2]
+        for n in (4, 5, 6, 7):
+            for fa in itertools.product([0, 2], repeat=n):
+                recs.append(['prod', ['list'] + [S(wholes[i] * one if k == 2 else (one * 7) // 10 + 3 * i + 1, k == 2)
+                                                 for i, k in enumerate(fa)]])
         for n in (2, 3, 4):
             for fa in itertools.product([0, 1, 2], repeat=n):
                 L = mk(fa)
